@@ -1,21 +1,21 @@
 ------------------------------- MODULE CurveXB -------------------------------
 (***************************************************************************)
-(* Balanced-recursion evaluation of the definitions of lib/CurveX, lib/Curve*)
-(* and lib/Tower for wide scalars (C11, C12).                              *)
+(* Balanced-recursion evaluation of [k]P over a tower level (lib/CurveX),  *)
+(* over F_p (lib/Curve) and of x^e in a tower (lib/Tower) for wide scalars *)
+(* (C11, C12), with the signed variants the call-level specs need.         *)
 (*                                                                         *)
-(* CurveX!XMulNat, Curve!PMulNat and Tower!TExp are the DEFINITIONS        *)
-(* ([k]P by left-to-right double-and-add, x^e by square-and-multiply); they*)
-(* recurse once per scalar bit.  TLC evaluates recursion on the Java stack *)
-(* and a 256..600-deep stack makes every garbage collection scan it, which *)
-(* costs an order of magnitude per step.  The operators below perform      *)
-(* EXACTLY the same left-to-right sequence of doublings/additions          *)
-(* (squarings/multiplications) but fold the bit range by halves and force  *)
-(* each half before the next (IF a = a), so the stack depth is logarithmic.*)
-(*   XMulB(n, P, c)  = CurveX!XMulNat(n, P, c)                             *)
-(*   PMulB(k, P, c)  = Curve!PMulNat(k, P, c)                              *)
-(*   TPowB(T, k, x, e) = Tower!TExp(T, k, x, e)                            *)
-(* is model-checked on small instances (model/MCCurveX) and re-checked at  *)
-(* full width by the events of the conformance runs flagged "full".        *)
+(* [k]P is left-to-right double-and-add, x^e square-and-multiply.  A       *)
+(* recursion once per scalar bit puts 256..1500 frames on the Java stack   *)
+(* and every garbage collection of TLC scans it (an order of magnitude per *)
+(* step).  The operators below perform EXACTLY the textbook left-to-right  *)
+(* sequence of doublings/additions (squarings/multiplications) but fold    *)
+(* the bit range by halves and force each half before the next (IF a = a), *)
+(* so the stack depth is logarithmic.  (lib/CurveX, lib/Curve, lib/Tower   *)
+(* have meanwhile adopted the same fold for XMulNat, PMulNat, TExp.)       *)
+(* model/MCCurveX checks on small instances that XMulB / PMulB / TPowB     *)
+(*   - equal the LINEAR once-per-bit recursion (the textbook definition),  *)
+(*   - equal the library operators XMulNat / PMulNat / TExp, and           *)
+(*   - are the k-fold repeated group operation: [k+1]P = [k]P + P.         *)
 (***************************************************************************)
 EXTENDS CurveX, Curve
 
